@@ -51,7 +51,7 @@ tvars == <<vars, tid, l, nev, fix, pin, badl>>
 TInit == /\ InitWith(IF Len(Traces) > 0 THEN Range(Traces[1].roots) ELSE {})
          /\ tid = 1 /\ l = 1 /\ nev = 0 /\ fix = TRUE /\ pin = TRUE /\ badl = 0
 
-TraceTasks == 1..48
+TraceTasks == 1..128
 NoTasks == {}
 
 Reset(R) ==
